@@ -30,6 +30,21 @@ type wsFake struct {
 	w      bytes.Buffer
 	writes [][]byte
 	readDL, writeDL time.Time
+	skew            time.Duration // virtual time that has passed on this transport (Advance)
+}
+
+// wsTimeout is what a net.Conn returns from Write once its write deadline has passed.
+type wsTimeout struct{}
+
+func (wsTimeout) Error() string   { return "i/o timeout (write deadline of the transport passed)" }
+func (wsTimeout) Timeout() bool   { return true }
+func (wsTimeout) Temporary() bool { return true }
+
+// Advance lets d of (virtual) time pass on the transport.
+func (c *wsFake) Advance(d time.Duration) {
+	c.mu.Lock()
+	c.skew += d
+	c.mu.Unlock()
 }
 
 func newWsFake(in []byte) *wsFake { return &wsFake{r: bytes.NewReader(in)} }
@@ -38,6 +53,10 @@ func (c *wsFake) Read(p []byte) (int, error) { return c.r.Read(p) }
 func (c *wsFake) Write(p []byte) (int, error) {
 	c.mu.Lock()
 	defer c.mu.Unlock()
+	// like a net.Conn: a write after the armed write deadline fails
+	if !c.writeDL.IsZero() && time.Now().Add(c.skew).After(c.writeDL) {
+		return 0, wsTimeout{}
+	}
 	c.writes = append(c.writes, append([]byte(nil), p...))
 	return c.w.Write(p)
 }
@@ -49,7 +68,7 @@ func (c *wsFake) Written() []byte {
 func (c *wsFake) Close() error                       { return nil }
 func (c *wsFake) LocalAddr() net.Addr                { return wsAddr{} }
 func (c *wsFake) RemoteAddr() net.Addr               { return wsAddr{} }
-// the deadlines are remembered (not enforced): what is armed on the transport when a call returns can be looked at
+// the deadlines are remembered (the write deadline is enforced against real time plus Advance): what is armed on the transport when a call returns can be looked at
 func (c *wsFake) SetDeadline(t time.Time) error {
 	c.mu.Lock()
 	c.readDL, c.writeDL = t, t
